@@ -128,6 +128,7 @@ class ShadowStore:
         self.unready = 0           # number of held items not yet seen ready (delayed stores)
         self.puts_log = []         # (t, iid)
         self.gets_log = []
+        self.delays_log = []       # delay travelling with each put (delayed stores fed with (item, delay))
         self.dead = False          # an exception escaped a well-formed call: stop judging
         # belts / fleets: extra per-kind observers can be attached by other oracles
         self.observers = []
@@ -359,6 +360,7 @@ class ShadowStore:
             item = info["item"]
             self.put_seq += 1
             ir = ItemRec(item, self.now(), self.put_seq, info.get("delay"), rec.owner)
+            self.delays_log.append(info.get("delay"))
             if id(item) in self.held:
                 self.viol("C02", "duplicate_put", f"{self.kind}:same-object-put-twice", {"item": ir.iid})
             self.held[id(item)] = ir
